@@ -640,6 +640,7 @@ Plan gen_C04(Gen &g, Plan p)
         if (reappear) {
             main_logs(0, 4);
             maybe_sleep();
+            maybe_gate(); // before anything on the main thread that may itself have to wait for the backlog
             p.main_ops.push_back(mkop("destroy_app"));
         }
         main_logs(1, 8);
